@@ -182,15 +182,15 @@ def run(ctx):
     if not thorough:
         runs += [
             ('cmp3', 'compare', 3, 3, dict(shapes='Sh23', methods=allm, sigmas='SigmaCat', rots=(0, 2),
-                                           srcs=('free', 'boot'), freemasks='MasksUpTo1', emitmod=2), 2000),
+                                           srcs=('free', 'boot'), freemasks='MasksUpTo1', emitmod=12), 2000),
             ('cmp4', 'compare', 4, 6, dict(shapes='Sh12', methods=allm, sigmas='SigmaCat', srcs=('free', 'boot', 'part'),
-                                           freemasks='MasksUpTo1', emitmod=6), 1500),
+                                           freemasks='MasksUpTo1', emitmod=10), 1500),
             ('cmp4wide', 'compare', 4, 6, dict(shapes='Sh11', methods=allm, sigmas='SigmaCat', srcs=('free',),
-                                               freemasks='MasksUpTo3', rots=(1,), emitmod=10), 800),
+                                               freemasks='MasksUpTo3', rots=(1,), emitmod=16), 800),
             ('cmp5', 'compare', 4, 5, dict(shapes='Sh11', methods=NONCOV, srcs=('free',), freemasks='MasksUpTo3',
-                                           emitmod=3), 300),
+                                           emitmod=6), 300),
             ('cmp4len', 'compare', 3, 4, dict(shapes='Sh12', methods=NONCOV, srcs=('free',), freemasks='MasksUpTo2',
-                                              emitmod=4), 300),
+                                              emitmod=8), 300),
             ('pool', 'pool', 4, 6, dict(shapes='One23', methods=M.POOL_METHODS, srcs=('free', 'boot', 'part'),
                                         freemasks='MasksUpTo1', emitmod=5), 1000),
             ('mean', 'mean', 4, 6, dict(shapes='One123', srcs=('free', 'part'), freemasks='MasksUpTo1',
@@ -205,17 +205,17 @@ def run(ctx):
     else:
         runs += [
             ('cmp3', 'compare', 3, 3, dict(shapes='ShAll', methods=allm, sigmas='SigmaCat', rots=(0, 2),
-                                           srcs=('free', 'boot'), freemasks='MasksUpTo1', emitmod=3), 20000),
+                                           srcs=('free', 'boot'), freemasks='MasksUpTo1', emitmod=12), 20000),
             ('cmp4', 'compare', 4, 6, dict(shapes='Sh22', methods=allm, sigmas='SigmaCat', srcs=('free', 'boot', 'part'),
-                                           freemasks='MasksUpTo1', emitmod=4, rots=(0, 3)), 20000),
+                                           freemasks='MasksUpTo1', emitmod=12, rots=(0, 3)), 15000),
             ('cmp4wide', 'compare', 4, 6, dict(shapes='Sh12', methods=allm, sigmas='SigmaCat', srcs=('free',),
-                                               freemasks='MasksUpTo2', rots=(1,), emitmod=15), 10000),
+                                               freemasks='MasksUpTo2', rots=(1,), emitmod=40), 8000),
             ('cmp4all', 'compare', 4, 6, dict(shapes='Sh11', methods=allm, sigmas='SigmaCat', srcs=('free',),
-                                              freemasks='AllMasks', rots=(2,), emitmod=4), 5000),
+                                              freemasks='AllMasks', rots=(2,), emitmod=8), 3000),
             ('cmp5', 'compare', 4, 5, dict(shapes='Sh12', methods=NONCOV, srcs=('free',), freemasks='MasksUpTo3',
-                                           emitmod=12), 5000),
+                                           emitmod=30), 3000),
             ('cmp4len', 'compare', 3, 4, dict(shapes='Sh22', methods=NONCOV, srcs=('free',), freemasks='AllMasks',
-                                              emitmod=10), 5000),
+                                              emitmod=30), 3000),
             ('pool', 'pool', 4, 6, dict(shapes='One23', methods=M.POOL_METHODS, srcs=('free', 'boot', 'part'),
                                         freemasks='MasksUpTo2', emitmod=8, rots=(0, 2)), 10000),
             ('mean', 'mean', 4, 6, dict(shapes='One123', srcs=('free', 'part'), freemasks='MasksUpTo2',
